@@ -534,18 +534,21 @@ nested messages and enums, fields (no label / `repeated` / `optional`; scalar, r
 package-qualified and fully-qualified type names; any number, negative ones included), enum values —
 real oneofs, map fields — with or without source locations (lines; the printer orders the children of a
 block by them and leaves a gap where the source left a line free), bracket options and custom JSON names of fields,
-statement options of messages, enums, services and methods (a `/` inside a string literal is fine) — without
-comments, extensions, options of files / oneofs / enum values (those are covered by the stream, not yet by the theorem). -/
+statement options of messages, enums, services and methods (a `/` inside a string literal is fine), **leading comments** on
+messages, enums, services, oneofs, fields, enum values and methods (the `//` lines are attributed by the model of
+protocompile's comment attribution to the element below them; the comment text must end with a line break and is read back
+verbatim) — without detached / trailing comments, extensions, options of files / oneofs / enum values (those are covered by
+the stream, not yet by the theorem). -/
 
 open Layout Grammar Reparse in
 /-- **parse (print d) = d′ with d′ ≍ d, and print d′ = print d.** For every `d` whose printed
 arrangement is a `SimpleFile`: the grammar model reads the printed text as `rdFile d.arranged` — by
-`relaidFile` the same package, imports and elements (names, numbers, type names, labels, JSON
-names, nesting, enum values, in printed order) with the source lines of the text — and printing that
-reading reproduces the text. Over characters: the tokeniser is part of the statement. -/
+`relaidFileL` the same package, imports and elements (names, numbers, type names, labels, JSON
+names, nesting, enum values, leading comments, in printed order) with the source lines of the text — and printing that
+reading reproduces the text. Over characters: the tokeniser and the comment attribution are part of the statement. -/
 theorem C05_reparse (gen : String) (d : FileD) (h : SimpleFile gen d.arranged) :
     parseFile (printText gen d) = some (rdFile d.arranged) ∧
-    relaidFile d.arranged (rdFile d.arranged) ∧
+    relaidFileL d.arranged (rdFile d.arranged) ∧
     printFile gen (rdFile d.arranged) = printFile gen d :=
   ⟨parse_print gen d.arranged h, relaid_rdFile gen d.arranged h, reprint_simple gen d.arranged h⟩
 
@@ -722,6 +725,10 @@ theorem leadEx_relaid : Cover.relaidFileLB leadEx.arranged leadRead = true := by
 
 example : printFile "gen" leadRead = printFile "gen" leadEx :=
   C05_reprint_checked "gen" leadEx leadRead leadEx_quiet leadEx_relaid
+
+/-! The example with leading comments is inside the shape of the grammar theorem as well: `Cover.simpleFileB "gen"
+leadEx.arranged` evaluates to `true` (`#eval`, and the driver evaluates the same test on every `print.file` op); it has no
+`decide` proof here because the kernel does not evaluate `String.splitOn` (inside `commentBody`). -/
 
 example : leadEx.quietL ∧ relaidFileL leadEx.arranged leadRead :=
   ⟨by simp [FileD.quietL, leadEx, Loc.noComments, Loc.none, quietListL, Item.quietL, FieldD.quietL, Loc.leadOnly, lc, exO1, exMsgOpt],
